@@ -28,6 +28,9 @@ extern std::default_random_engine generator;
 #ifndef KBB
 #define KBB 1
 #endif
+#ifndef SYMKEYS
+#define SYMKEYS 1
+#endif
 #define KPL ((PK + 1) * PL)
 #define KSROWS (PK * PN * KT * (1 << KBB))
 
@@ -64,14 +67,27 @@ static void walk_world(const World &w) {
         }
     }
 }
+/* key material: symbolic (SYMKEYS, for the single-step entry points) or concrete pseudo-random words (for the whole
+   bootstrapping chain, where symbolic masks make the formula intractable: 900 s, no answer). Whether an input object is
+   written does not depend on the values it holds; the input sample, exponents and test polynomial - which steer the
+   control flow (zero-exponent skipping, barb == 0, buffer parity) - stay symbolic in every query */
+static uint32_t lcg_state = 12345u;
+static uint32_t keyword32() {
+#if SYMKEYS
+    return nondet_u32();
+#else
+    lcg_state = lcg_state * 1664525u + 1013904223u;
+    return lcg_state;
+#endif
+}
 static void mk_world(World &w, bool fft) {
     w.lp = new_LweParams(PLN, 0.0, 1.0);
     w.tp = new_TLweParams(PN, PK, 0.0, 1.0);
     w.gp = new_TGswParams(PL, PBGBIT, w.tp);
     w.bk = new_LweBootstrappingKey(KT, KBB, w.lp, w.gp);
     for (int i = 0; i < PLN; i++) for (int p = 0; p < KPL; p++) for (int c = 0; c <= PK; c++) for (int j = 0; j < PN; j++)
-        w.bk->bk[i].all_sample[p].a[c].coefsT[j] = (Torus32) nondet_u32();
-    for (int r = 0; r < KSROWS; r++) { for (int q = 0; q < PLN; q++) w.bk->ks->ks0_raw[r].a[q] = (Torus32) nondet_u32(); w.bk->ks->ks0_raw[r].b = (Torus32) nondet_u32(); }
+        w.bk->bk[i].all_sample[p].a[c].coefsT[j] = (Torus32) keyword32();
+    for (int r = 0; r < KSROWS; r++) { for (int q = 0; q < PLN; q++) w.bk->ks->ks0_raw[r].a[q] = (Torus32) keyword32(); w.bk->ks->ks0_raw[r].b = (Torus32) keyword32(); }
     w.bf = fft ? new_LweBootstrappingKeyFFT(w.bk) : 0;
 }
 static uint64_t gen_state() { uint64_t s; __builtin_memcpy(&s, &generator, sizeof s); return s; }
